@@ -498,6 +498,10 @@ Definition call_function (f : fname) (args : list value) : res := call (length a
 (* ------------------------------------------------------------------------------------------------ *)
 (* operators *)
 
+(* operators/builtin.go: maxNumberExponent, exponentOutOfRange (Multiply adds the decimal exponents) *)
+Definition max_number_exponent : Z := 100000%Z.
+Definition exponent_out_of_range (e : Z) : bool := ((e <? - max_number_exponent) || (max_number_exponent <? e))%Z.
+
 Inductive binop := OConcat | OEq | ONeq | OAdd | OSub | OMul | ODiv | OLt | OLte | OGt | OGte.
 
 Definition textual_binary (f : text -> text -> res) (a b : value) : res :=
@@ -515,7 +519,9 @@ Definition eval_binop (op : binop) : value -> value -> res :=
   | ONeq => textual_binary (fun a b => Ret (VBool (negb (text_eqb a b))))
   | OAdd => numerical_binary (fun a b => Ret (VNum (dec_add a b)))
   | OSub => numerical_binary (fun a b => Ret (VNum (dec_sub a b)))
-  | OMul => numerical_binary (fun a b => match dec_mul a b with Some p => Ret (VNum p) | None => Panic PExponent end)
+  | OMul => numerical_binary (fun a b =>
+              if exponent_out_of_range (dexp a + dexp b) then Ret VErr
+              else match dec_mul a b with Some p => Ret (VNum p) | None => Panic PExponent end)
   | ODiv => numerical_binary (fun a b =>
               if dec_eqb b (Dec 0 0) then Ret VErr
               else match dec_div a b with inr q => Ret (VNum q) | inl c => Panic c end)
